@@ -22,7 +22,7 @@ def struct_diff(a, b, path='', rtol=0.0):
             if d:
                 return d
         return ''
-    if isinstance(a, numpy.ndarray) or isinstance(b, numpy.ndarray):
+    if isinstance(a, (numpy.ndarray, numpy.void)) or isinstance(b, (numpy.ndarray, numpy.void)):
         a_, b_ = numpy.asarray(a), numpy.asarray(b)
         if a_.shape != b_.shape:
             return '%s: shapes differ (%s vs %s)' % (path, a_.shape, b_.shape)
